@@ -170,10 +170,38 @@ func nativeReplay(repo, hdir, work string, paths []string, race bool) (map[strin
 			res[rest[:sp]] = r
 		}
 	}
+	if len(res) < len(paths) && len(paths) > 1 {
+		// the test process died (e.g. "fatal error: out of memory" inside a replay,
+		// which recover() cannot catch): run the missing vectors one process each
+		for _, pth := range paths {
+			if _, ok := res[pth]; ok {
+				continue
+			}
+			one, oneOut, _ := nativeReplay(repo, hdir, work, []string{pth}, race)
+			if r, ok := one[pth]; ok {
+				res[pth] = r
+			} else {
+				res[pth] = nativeResult{Outcome: "crash", Msg: "native process died: " + crashLine(oneOut)}
+			}
+		}
+		return res, out.String(), nil
+	}
 	if len(res) < len(paths) {
 		return res, out.String(), fmt.Errorf("native replay produced %d of %d results (go test: %v)", len(res), len(paths), runErr)
 	}
 	return res, out.String(), nil
+}
+
+func crashLine(out string) string {
+	for _, l := range strings.Split(out, "\n") {
+		if strings.HasPrefix(l, "fatal error:") || strings.HasPrefix(l, "panic:") || strings.Contains(l, "signal ") {
+			return l
+		}
+	}
+	if len(out) > 200 {
+		return out[len(out)-200:]
+	}
+	return out
 }
 
 func vecHash(v *replayVec) string {
@@ -496,9 +524,9 @@ func cmdCheck(args []string) {
 				}
 				switch v.Kind {
 				case "assert":
-					reproduced = r.Outcome == "assert" || r.Outcome == "panic" || r.Outcome == "hang"
+					reproduced = r.Outcome == "assert" || r.Outcome == "panic" || r.Outcome == "hang" || r.Outcome == "crash"
 				case "panic":
-					reproduced = r.Outcome == "panic" || r.Outcome == "assert"
+					reproduced = r.Outcome == "panic" || r.Outcome == "assert" || r.Outcome == "crash"
 				case "deadlock":
 					reproduced = r.Outcome == "hang"
 				}
